@@ -43,6 +43,17 @@ func genC20(fam string, seed uint64, free bool) *world.Scenario {
 	if sc.Sensors[0].Kind == "file" && kernel.NewRand(seed, "c20.home").Bool(0.5) {
 		sc.Sensors[0].HomeRelative = true // configured as "~/..."
 	}
+	if er := kernel.NewRand(seed, "c20.sensorfile"); sc.Sensors[0].Kind == "file" && !sc.Sensors[0].HomeRelative && er.Bool(0.5) {
+		// the sensor's file disappears and comes back a few times (a tmpfs being remounted, a writer that
+		// replaces the file non-atomically): the error paths of everybody who reads the sensor run concurrently
+		t := 3.6 + er.Float()
+		for i, n := 0, er.Range(2, 5); i < n; i++ {
+			sc.Env = append(sc.Env, world.EnvEvent{Kind: "remove", Path: "@W@/files/s0.temp", At: sec(t)})
+			t += 0.05 + er.Float()*0.4
+			sc.Env = append(sc.Env, world.EnvEvent{Kind: "setfile", Path: "@W@/files/s0.temp", Text: "47000\n", At: sec(t)})
+			t += 0.1 + er.Float()*0.5
+		}
+	}
 	sc.Curves = append(sc.Curves,
 		world.CurveSpec{ID: "shared", Kind: "linear", Sensor: "s0", Min: 20, Max: 80},
 		world.CurveSpec{ID: "pidc", Kind: "pid", Sensor: "s0", PID: &world.PidSpec{SetPoint: 45, P: -0.05, I: -0.005, D: -0.005}},
